@@ -13,7 +13,7 @@ use crate::oracle::vsign::*;
 use crate::props::c12::{expand, short_op, tiny_block, tiny_block_max3000, Block, Fault, HOp};
 use crate::repr::M;
 
-pub const RULE: &str = "bus populations of 1..4 virtual signs with distinct addresses (adjacent, byte-swapped, 0 and 0xFFFF included), mixed flip styles, both vector orders; interleaved histories of 1..150 operations (single messages, whole transfers with faults, ~30 % abandoned transfers so that several signs are mid-transfer at once) addressed to any sign or to an absent address; plus a breadth-first exploration of a two-sign bus over a reduced alphabet to a depth bound with state deduplication. After every message: (a) the bus reply equals what the addressed sign replies when run alone (replica differential) and carries the addressed address, (b) an addressed message leaves state/type/pages of every other sign unchanged and a message for an absent address changes nothing and gets no reply, (c) an unaddressed data message leaves state/type/pages of every sign that is not in a receiving state unchanged. Non-trivial = a history in which two signs are in a receiving state at once, or a message goes to an absent address; distinct by hash of the history";
+pub const RULE: &str = "bus populations of 1..4 virtual signs with distinct addresses (adjacent, byte-swapped, 0 and 0xFFFF included), mixed flip styles, both vector orders; interleaved histories of 1..150 operations (single messages, whole transfers with faults, ~30 % abandoned transfers so that several signs are mid-transfer at once) addressed to any sign or to an absent address; plus a breadth-first exploration of a two-sign bus over a reduced alphabet to a depth bound (14 quick, 18 thorough) with state deduplication. After every message: (a) the bus reply equals what the addressed sign replies when run alone (replica differential) and carries the addressed address, (b) an addressed message leaves state/type/pages of every other sign unchanged and a message for an absent address changes nothing and gets no reply, (c) an unaddressed data message leaves state/type/pages of every sign that is not in a receiving state unchanged. Non-trivial = a history in which two signs are in a receiving state at once, or a message goes to an absent address; distinct by hash of the history";
 pub const ASSUMPTIONS: &[&str] = &[
     "\"what that sign alone would have replied\" is obtained from solo VirtualSign replicas that are offered every message (the single-sign behaviour itself is C13's subject)",
     "observable = state(), sign_type(), pages(); hidden buffers are not compared",
@@ -292,7 +292,7 @@ fn bfs_two_signs(ctx: &Ctx, depth: u32, max_states: usize) {
         alphabet.push(M::Query(a));
         alphabet.push(M::Goodbye(a));
         alphabet.push(M::PixelsComplete(a));
-        for o in [O_RECEIVE_CONFIG, O_RECEIVE_PIXELS, O_START_RESET, O_FINISH_RESET] {
+        for o in [O_RECEIVE_CONFIG, O_RECEIVE_PIXELS, O_START_RESET, O_FINISH_RESET, O_SHOW_LOADED_PAGE, O_LOAD_NEXT_PAGE] {
             alphabet.push(M::Req(a, o));
         }
     }
@@ -372,7 +372,7 @@ fn bfs_two_signs(ctx: &Ctx, depth: u32, max_states: usize) {
 }
 
 pub fn run(ctx: &Ctx) {
-    bfs_two_signs(ctx, ctx.tier.pick(7, 10), ctx.tier.pick(150_000, 3_000_000));
+    bfs_two_signs(ctx, ctx.tier.pick(14, 18), ctx.tier.pick(600_000, 6_000_000));
     run_generated(ctx, "bus-history", ctx.tier.pick(30_000, 1_000_000), || bus_case_strategy(60), |c, st| check_bus(c, st));
     run_generated(ctx, "bus-history-long", ctx.tier.pick(2_000, 60_000), || bus_case_strategy(300), |c, st| check_bus(c, st));
 }
